@@ -28,6 +28,25 @@ def namedSize (attr : String) (c : Period) : Except String Int :=
   else if attr = "size_in_weekdays" then c.sizeInWeekdays
   else .error "unknown attribute"
 
+/-- is `a` a contiguous sub-list of `b`? -/
+def infixB (a : List Char) : List Char → Bool
+  | [] => a.isEmpty
+  | c :: cs => a.isPrefixOf (c :: cs) || infixB a cs
+
+/-- `DateUnit.A in unit` on a `StrEnum`: the NAME of `A` occurs inside the name of `unit`
+    ("week" in "weekday" holds) -/
+def nameInfix (a b : DUnit) : Bool := infixB a.name.toList b.name.toList
+
+/-- `start = self.start.date; cease = start.add(years=self.size); start.diff(cease).in_weeks()` -/
+def weeksAfterYears (p : Period) : Except String Int :=
+  if dateOk p.start then do
+    let c ← chk (addMonths p.start (12 * p.size)); .ok (inWeeks p.start c) else .error "date"
+
+/-- the same with `months=self.size` -/
+def weeksAfterMonths (p : Period) : Except String Int :=
+  if dateOk p.start then do
+    let c ← chk (addMonths p.start p.size); .ok (inWeeks p.start c) else .error "date"
+
 /-- `unit in DateUnit.isoformat + DateUnit.isocalendar` (tuples extracted from the source) -/
 def dated (u : DUnit) : Bool :=
   Generated.isoformatUnits.contains u.name || Generated.isocalendarUnits.contains u.name
